@@ -91,6 +91,12 @@ def module_kinds(ctx, mod):
                     if isinstance(v, str):
                         kinds.add(v)
                         helper_args.add(v)
+                    else:
+                        # a table of (node kind, normaliser) pairs built in place
+                        for x in walk(E.operand(a)):
+                            if x[0] == "const" and isinstance(x[1], str) and re.match(r"^[a-z_]+$", x[1]):
+                                kinds.add(x[1])
+                                helper_args.add(x[1])
             if callee_matches(t, r"^tree_sitter::Query::new$") and len(t["args"]) > 1:
                 q = util.const_val(ctx, b, t["args"][1])
                 if isinstance(q, str):
@@ -573,7 +579,9 @@ def check_treewalk(ctx, out, rule="C03.walk"):
                 if recursive and uses_kind:
                     out.viol(rule, "%s|%s|partial-recursion" % (rule, b.id), ctx.where(b, t["span"]),
                              "`%s` walks the tree by hand with `%s` and chooses by node kind where to descend: nodes of the wanted kind that are nested inside other containers (list items, block quotes, ...) are never reached; use a query from the root or descend into every child" % (b.name, callee_name(t).split("::")[-1]))
-    out.inst(rule, n, 5, samples[:6], note="cursor moves followed by a visit; unconditional descent; queries from the root")
+    # (the anchor: an unconditional descent and the two kinds of forward move, each followed by a visit - a walk
+    # written with fewer call sites than today's is the same walk)
+    out.inst(rule, n, 3, samples[:6], note="cursor moves followed by a visit; unconditional descent; queries from the root")
 
 
 def check_order(ctx, out):
